@@ -67,13 +67,14 @@ def r1(ctx):
     ok = len(ks) == 1 and stores and ctx.cfg(f).dominates(ctx.cfg(f).node(ks[0]), ctx.cfg(f).node(stores[0])) or (len(ks) == 1 and stores and any(t for t, pol, n in dominating_conditions(ctx, f, ks[0]) if pol and "checksum" in t))
     ctx.ob("R1", "DOM", f, "payload_xor_key stored under the same test", bool(ok), "the environmental key is recorded only for a matching checksum")
     # unguarded = xor(guarded_config, xorkey); guarded = xor(masked_beacon_config, beacon_xor_key)
-    un = [v for st, v in assignments_to(f.node, "unguarded")]
+    UNG = dotted(stores[0].value) if stores else "unguarded"
+    un = [v for st, v in assignments_to(f.node, UNG)]
     ok = len(un) == 1 and isinstance(un[0], ast.Call) and ctx.rs.resolve_call(f, un[0]).fq == "utils.xor"
     if ok:
         a0 = origin(f.node, un[0].args[0])
         ok = isinstance(a0, ast.Call) and ctx.rs.resolve_call(f, a0).fq == "utils.xor" and src(a0.args[0]).endswith(".masked_beacon_config") and src(a0.args[1]).endswith(".beacon_xor_key")
         cands = [c for c in fn_calls(f.node) if ctx.rs.resolve_call(f, c).fq == "guardrails.find_xor_key_candidates"]
-        ok = ok and len(cands) == 1 and "guarded_config" in src(cands[0])
+        ok = ok and len(cands) == 1 and dotted(un[0].args[0]) is not None and dotted(un[0].args[0]) in src(cands[0])
     ctx.ob("R1", "AGREE", f, "unguarded = xor(xor(masked, beacon key), candidate)", bool(ok), "candidate keys are tried on the single-byte-unmasked configuration they were derived from" if ok else "unmasking chain not recognised")
     g = ctx.repo.func("guardrails.iter_guardrail_configs")
     ctor = [c for c in fn_calls(g.node) if dotted(c.func) == "GuardrailMetadata"]
@@ -117,7 +118,9 @@ def r3(ctx, mod, env):
     got = _c(ctx.repo.const("guardrails.GUARD_CONFIG_STARTS"), env)
     ctx.ob("R3", "TABLE", "guardrails.py::GUARD_CONFIG_STARTS", "table", got == ref and cd.endian == ">", f"marker table {got}; serialisation of USER/COMPUTER/DOMAIN (SHORT,2) and LOCAL_IP (INT,4) from the definition: {ref}")
     f = ctx.repo.func("guardrails.iter_guardrail_configs")
-    cs = [s2 for s2 in statements(f.node) if isinstance(s2, ast.Assign) and dotted(s2.targets[0]) == "checksum" and isinstance(s2.value, ast.Call)]
+    ctor = [c for c in fn_calls(f.node) if dotted(c.func) == "GuardrailMetadata"]
+    CK = dotted(kwarg(ctor[0], "checksum")) if ctor else "checksum"
+    cs = [s2 for s2 in statements(f.node) if isinstance(s2, ast.Assign) and dotted(s2.targets[0]) == CK and isinstance(s2.value, ast.Call)]
     ok = False
     if len(cs) == 1:
         cal = ctx.rs.resolve_call(f, cs[0].value)
@@ -127,44 +130,79 @@ def r3(ctx, mod, env):
     ctx.ob("R3", "AGREE", f, "checksum = u32be(setting.value)", ok, "the stored checksum is the 4-byte big-endian value of the GUARD_PAYLOAD_CHECKSUM setting" if ok else "checksum extraction not recognised")
 
 
+def _xpoly(f, e, depth=0):
+    """SymPoly of e with single-definition locals expanded (module constants stay atoms)."""
+    def subst(x):
+        if depth > 6:
+            return None
+        if isinstance(x, ast.Name) and x.id not in params(f.node):
+            defs = [v for st, v in assignments_to(f.node, x.id)]
+            if len(defs) == 1 and defs[0] is not None and not isinstance(defs[0], ast.Call):
+                return _xpoly(f, defs[0], depth + 1)
+        return None
+    return sympoly(e, subst)
+
+
 def r4(ctx, mod, env):
+    from csverif.astutil import pmatch
+
     f = ctx.repo.func("guardrails.iter_guardrail_configs")
     bs, gs = _c(ctx.repo.const("guardrails.BEACON_CONFIG_PATCH_SIZE"), env), _c(ctx.repo.const("guardrails.GUARD_PATCH_SIZE"), env)
     ctx.ob("R4", "TABLE", "guardrails.py::constants", "patch sizes", (bs, gs) == (6144, 2048), f"BEACON_CONFIG_PATCH_SIZE={bs} GUARD_PATCH_SIZE={gs} (6144 / 2048)")
     starts = _c(ctx.repo.const("guardrails.GUARD_CONFIG_STARTS"), env) or [b""]
     mlen = len(starts[0])
-    d = {n: v for n in ("size", "guard_config_offset", "beacon_config_offset", "xorred_guardconfig_starts", "unmasked_guard_config", "masked_beacon_config", "masked_guard_config", "block")
-         for st, v in assignments_to(f.node, n) if v is not None}
-    ok = src(d.get("size")) == "len(xorred_guardconfig_starts[0])" and isinstance(d.get("xorred_guardconfig_starts"), ast.ListComp) and src(d["xorred_guardconfig_starts"]) == "[xor(x, xorkey) for x in GUARD_CONFIG_STARTS]"
-    ctx.ob("R4", "AGREE", f, "marker length", ok and all(len(s) == mlen for s in starts), f"size = len of the (masked) marker = {mlen}; masked markers are xor(start, xorkey)={ok}")
-    gp = sympoly(d.get("guard_config_offset")) if d.get("guard_config_offset") is not None else None
-    ok = gp == SymPoly.atom("offset") + SymPoly.const(mlen) or gp == SymPoly.atom("offset") + SymPoly.atom("size")
-    ctx.ob("R4", "AGREE", f, "guard_config_offset = offset + 6", ok, f"guard config offset is {gp}; required offset + marker length ({mlen})")
-    bp = sympoly(d.get("beacon_config_offset")) if d.get("beacon_config_offset") is not None else None
-    ok = bp == SymPoly.atom("guard_config_offset") - SymPoly.atom("BEACON_CONFIG_PATCH_SIZE")
-    ctx.ob("R4", "AGREE", f, "beacon_config_offset", ok, f"beacon config offset is {bp}; required guard_config_offset - BEACON_CONFIG_PATCH_SIZE")
-    fh = params(f.node)[0]
-    seq = []
-    for c in sorted([c for c in fn_calls(f.node) if isinstance(c.func, ast.Attribute) and c.func.attr in ("seek", "read") and dotted(c.func.value) == fh], key=lambda c: (c.lineno, c.col_offset)):
-        seq.append(f"{c.func.attr}({src(c.args[0]) if c.args else ''})")
-    want = ["seek(offset)", "read(size * 2)", "seek(beacon_config_offset)", "read(BEACON_CONFIG_PATCH_SIZE)", "read(GUARD_PATCH_SIZE)"]
-    ctx.ob("R4", "CURSOR", f, "read sequence", seq == want, f"file operations in order: {seq}; required {want}")
-    ok = src(d.get("masked_beacon_config")) == f"{fh}.read(BEACON_CONFIG_PATCH_SIZE)" and src(d.get("masked_guard_config")) == f"{fh}.read(GUARD_PATCH_SIZE)"
-    ctx.ob("R4", "AGREE", f, "masked blocks", ok, "beacon block then guard block are read back to back")
-    u = d.get("unmasked_guard_config")
-    ok = u is not None and src(u) == "xor(xor(masked_guard_config, masked_beacon_config[::-1]), xorkey)"
-    if not ok and u is not None:
-        # accept the commuted form
-        ok = src(u) in ("xor(xor(masked_guard_config, xorkey), masked_beacon_config[::-1])",)
-    ctx.ob("R4", "AGREE", f, "unmasked_guard_config", bool(ok), f"guard config is unmasked with the REVERSED masked beacon config and the single-byte key: {src(u)}")
-    tests = [n for n in body_walk(f.node) if isinstance(n, ast.Compare) and isinstance(n.ops[0], ast.In) and dotted(n.comparators[0]) == "xorred_guardconfig_starts"]
-    ok = len(tests) == 1 and src(tests[0].left) in ("xor(a[::-1], b)", "xor(b, a[::-1])")
-    ab = [s for s in statements(f.node) if isinstance(s, ast.Assign) and isinstance(s.targets[0], ast.Tuple) and [dotted(t) for t in s.targets[0].elts] == ["a", "b"]]
-    ok = ok and len(ab) == 1 and src(ab[0].value) == "(block[:size], block[size:])"
+    fh, xk = params(f.node)[0], params(f.node)[1]
+    fv = FuncView.of(f.node)
+    ops = sorted([c for c in fn_calls(f.node) if isinstance(c.func, ast.Attribute) and c.func.attr in ("seek", "read") and dotted(c.func.value) == fh], key=lambda c: (c.lineno, c.col_offset))
+    kinds = [c.func.attr for c in ops]
+    if kinds != ["seek", "read", "seek", "read", "read"]:
+        ctx.ob("R4", "CURSOR", f, "read sequence", False, f"file operations in order: {[src(c) for c in ops]}; required seek(offset), read(2*marker), seek(beacon offset), read(beacon patch), read(guard patch)")
+        return
+    s0, r0, s1, r1, r2 = ops
+
+    def var_of(call):
+        st = fv.stmt_of(call)
+        return dotted(st.targets[0]) if isinstance(st, ast.Assign) and st.value is call else None
+
+    OFF = dotted(s0.args[0])
+    m = pmatch("$s * 2", r0.args[0]) or pmatch("2 * $s", r0.args[0])
+    SIZE = m["s"] if m else None
+    BLOCK, MB, MG = var_of(r0), var_of(r1), var_of(r2)
+    seq_ok = OFF is not None and SIZE is not None and dotted(r1.args[0]) == "BEACON_CONFIG_PATCH_SIZE" and dotted(r2.args[0]) == "GUARD_PATCH_SIZE" and all((BLOCK, MB, MG))
+    ctx.ob("R4", "CURSOR", f, "read sequence", bool(seq_ok), f"seek(<offset>), read(2 * <marker length>), seek(<beacon offset>), read(BEACON_CONFIG_PATCH_SIZE), read(GUARD_PATCH_SIZE): {[src(c) for c in ops]}")
+    ctx.ob("R4", "AGREE", f, "masked blocks", bool(MB and MG), "beacon block then guard block are read back to back")
+    # marker length: SIZE = len(XS[0]) with XS = [xor(x, xorkey) for x in GUARD_CONFIG_STARTS]
+    sd = [v for st, v in assignments_to(f.node, SIZE)] if SIZE else []
+    m = pmatch("len($xs[0])", sd[0]) if len(sd) == 1 else None
+    XS = m["xs"] if m else None
+    xd = [v for st, v in assignments_to(f.node, XS)] if XS else []
+    xs_ok = len(xd) == 1 and pmatch("[xor($x, $k) for $x in GUARD_CONFIG_STARTS]", xd[0], {"k": xk}) is not None
+    ctx.ob("R4", "AGREE", f, "marker length", bool(xs_ok) and all(len(x) == mlen for x in starts), f"marker length = len of the masked marker = {mlen}; masked markers are [xor(start, xorkey) for start in GUARD_CONFIG_STARTS]={bool(xs_ok)}")
+    # geometry through the metadata constructor
+    ctor = [c for c in fn_calls(f.node) if dotted(c.func) == "GuardrailMetadata"]
+    gco = kwarg(ctor[0], "guard_config_offset") if ctor else None
+    bco = kwarg(ctor[0], "beacon_config_offset") if ctor else None
+    gp = _xpoly(f, gco) if gco is not None else None
+    want_g = (SymPoly.atom(OFF) + SymPoly.const(mlen), SymPoly.atom(OFF) + SymPoly.atom(f"len({XS}[0])"))
+    ctx.ob("R4", "AGREE", f, "guard_config_offset = offset + 6", gp in want_g, f"reported guard config offset is {gp}; required <offset> + marker length ({mlen})")
+    bp = _xpoly(f, bco) if bco is not None else None
+    ok = gp is not None and bp == gp - SymPoly.atom("BEACON_CONFIG_PATCH_SIZE") and _xpoly(f, s1.args[0]) == bp
+    ctx.ob("R4", "AGREE", f, "beacon_config_offset", bool(ok), f"reported beacon config offset is {bp}; required guard offset - BEACON_CONFIG_PATCH_SIZE, and the file is read there")
+    u = kwarg(ctor[0], "unmasked_guard_config") if ctor else None
+    uo = origin(f.node, u) if u is not None else None
+    ok = uo is not None and (pmatch("xor(xor($mg, $mb[::-1]), $k)", uo, {"mg": MG, "mb": MB, "k": xk}) is not None or pmatch("xor(xor($mg, $k), $mb[::-1])", uo, {"mg": MG, "mb": MB, "k": xk}) is not None)
+    ctx.ob("R4", "AGREE", f, "unmasked_guard_config", bool(ok), f"guard config is unmasked with the REVERSED masked beacon config and the single-byte key: {src(uo)}")
+    tests = [n for n in body_walk(f.node) if isinstance(n, ast.Compare) and isinstance(n.ops[0], ast.In) and dotted(n.comparators[0]) == XS]
+    ok = False
+    if len(tests) == 1:
+        m = pmatch("xor($a[::-1], $b)", tests[0].left) or pmatch("xor($b, $a[::-1])", tests[0].left)
+        if m:
+            ab = [s2 for s2 in statements(f.node) if isinstance(s2, ast.Assign) and isinstance(s2.targets[0], ast.Tuple) and [dotted(t) for t in s2.targets[0].elts] == [m["a"], m["b"]]]
+            ok = len(ab) == 1 and pmatch("($blk[:$s], $blk[$s:])", ab[0].value, {"blk": BLOCK, "s": SIZE}) is not None
     ctx.ob("R4", "AGREE", f, "marker test", bool(ok), "marker = reversed first half XOR second half of a 2*size window, looked up in the masked starts" if ok else "marker test not recognised")
-    w = [s for s in statements(f.node) if isinstance(s, ast.While)]
+    w = [s2 for s2 in statements(f.node) if isinstance(s2, ast.While)]
     ok = bool(w) and loops.analyse_loop(ctx, f, w[0])[0]
-    ctx.ob("R4", "LOOP", f, "every offset tested", bool(ok) and any(isinstance(s, ast.AugAssign) and dotted(s.target) == "offset" and _c(s.value) == 1 for s in statements(f.node)), "the scan advances one byte at a time and ends at end of file")
+    ctx.ob("R4", "LOOP", f, "every offset tested", bool(ok) and any(isinstance(s2, ast.AugAssign) and dotted(s2.target) == OFF and _c(s2.value) == 1 for s2 in statements(f.node)), "the scan advances one byte at a time and ends at end of file")
 
 
 def r5(ctx):
@@ -173,19 +211,23 @@ def r5(ctx):
     ok = len(rg) == 1 and [_c(a) for a in rg[0].args] == [2, 257]
     ctx.ob("R5", "TABLE", f, "range(2, 257)", ok, f"key lengths tried: range({', '.join(src(a) for a in rg[0].args) if rg else '?'}) (2..256)")
     gr = [c for c in fn_calls(f.node) if ctx.rs.resolve_call(f, c).fq == "utils.grouper"]
-    ok = len(gr) == 1 and dotted(kwarg(gr[0], "n") or (gr[0].args[1] if len(gr[0].args) > 1 else None)) == "keylen"
+    klv = [dotted(s2.target) for s2 in statements(f.node) if isinstance(s2, ast.For) and isinstance(s2.iter, ast.Call) and dotted(s2.iter.func) == "range"]
+    ok = len(gr) == 1 and bool(klv) and dotted(kwarg(gr[0], "n") or (gr[0].args[1] if len(gr[0].args) > 1 else None)) == klv[0]
     ctx.ob("R5", "AGREE", f, "grouper(chunk, n=keylen)", ok, "n-grams of the key length are counted")
     mc = [c for c in fn_calls(f.node) if isinstance(c.func, ast.Attribute) and c.func.attr == "most_common"]
     ctx.ob("R5", "AGREE", f, "most_common(2)", len(mc) == 1 and _c(mc[0].args[0]) == 2, "the two most common n-grams are candidates")
     p = ctx.repo.func("guardrails.payload_checksum")
-    aug = [s for s in statements(p.node) if isinstance(s, ast.Assign) and dotted(s.targets[0]) == "n" and isinstance(s.value, ast.BinOp)]
+    aug = [s for s in statements(p.node) if isinstance(s, ast.Assign) and isinstance(s.value, ast.BinOp) and isinstance(s.value.op, ast.Mod)]
     ok = False
     detail = "checksum update not recognised"
     if len(aug) == 1 and isinstance(aug[0].value.op, ast.Mod):
+        from csverif.astutil import pmatch
         mod_c = _c(aug[0].value.right)
         inner = aug[0].value.left
         txt = src(inner)
-        ok = mod_c == 99999999 and txt in ("n + (data[i] & 255) * (i % 3 + 1)", "n + data[i] * (i % 3 + 1)", "n + (i % 3 + 1) * (data[i] & 255)")
+        d0 = params(p.node)[0]
+        pats = ("$n + ($d[$i] & 255) * ($i % 3 + 1)", "$n + $d[$i] * ($i % 3 + 1)", "$n + ($i % 3 + 1) * ($d[$i] & 255)")
+        ok = mod_c == 99999999 and any(pmatch(pt, inner, {"d": d0}) is not None for pt in pats)
         detail = f"n = ({txt}) % {mod_c}; required (n + byte * (i % 3 + 1)) % 99999999"
     ctx.ob("R5", "TABLE", p, "checksum weights", ok, detail)
     lp = [s for s in statements(p.node) if isinstance(s, ast.For)]
